@@ -436,6 +436,16 @@ CHOICE_encode_der(const asn_TYPE_descriptor_t *td, const void *sptr,
 		if(ret == -1)
 			ASN__ENCODE_FAILED;
 		computed_size += ret;
+
+		if(!cb) {
+			/*
+			 * Only estimating: the member has just been measured.
+			 * Measuring it a second time below doubles the work at
+			 * every level of nested explicitly tagged CHOICEs.
+			 */
+			erval.encoded += computed_size;
+			return erval;
+		}
 	}
 
 	/*
